@@ -95,13 +95,10 @@ Theorem norm_unit : forall k r, (exists x, In x r /\ x <> 0) ->
   row_norm R_ops k r <> 0 /\ row_norm R_ops k (norm_row R_ops k r) = 1.
 Proof. intros k r H. pose proof (row_norm_nonzero k r H) as Hn. split; [exact Hn | exact (norm_unit_R k r Hn)]. Qed.
 
-(* OPEN (float-level finiteness, T2): for the binary64 instance, a row of finite entries is mapped to a row of
-   finite entries:
-     forall k r, Forall (fun x => f64_finite x = true) r ->
-                 Forall (fun y => f64_finite y = true) (norm_row B64_ops k r).
-   It needs a rounding analysis (|el| <= norm up to one rounding, overflow of the norm gives quotient 0).
-   What is proved instead: the zero-norm guard below (no division by zero in any arithmetic), and the
-   oracle checks finiteness of every output of every run (bit 64). *)
+(** float level (binary64): the former open item is closed in C16/PropertiesFloat.v - [norm_finite_float] (every
+    finite row is mapped to a finite row, all three norms, no input excluded), [norm_l1_max_unit_interval_float],
+    [norm_l2_unit_interval_float] with its refutation outside the stated class (finding F51).  The zero-norm guard
+    below holds in every arithmetic (no division by zero). *)
 Theorem norm_zero_rows_unchanged : forall F (o : NumOps F) k r,
   eqb o (row_norm o k r) (zero o) = true -> norm_row o k r = r.
 Proof. exact (@norm_zero_guard). Qed.
@@ -147,7 +144,8 @@ Theorem empty_training_data_rejected : forall F (o : NumOps F) fma eps lay m p X
   fit o fma eps lay m p X = NotEnoughSamples <-> X = [].
 Proof. exact (@fit_rejects_only_empty). Qed.
 
-(** whitening (pattern B): whenever the checker accepts the published mean [mu], whitening matrix [W] and
+(** whitening, per run (pattern B; the for-all-inputs statement from the contracts of the decompositions is in
+    C16/PropertiesWhiten.v): whenever the checker accepts the published mean [mu], whitening matrix [W] and
     output [Y] for the data [X], then over the reals mu is the column mean within d, Y is (X - mu) W^T within
     d entrywise, and the sample covariance (ddof 1) of Y is the identity within d entrywise *)
 Theorem whiten_ok_sound : forall p d X mu W Y, whiten_ok p d X mu W Y = true ->
